@@ -177,9 +177,9 @@ def eventsFaulty (cc : UInt8) (src : Bytes) (failAt : Option Nat) : List Event Ã
 def errorsOf (evs : List Event) : List PErr :=
   evs.filterMap (fun ev => match ev with | .error e => some e | .node _ => none)
 
-/-- does some entry of the text carry an Inf/NaN spelling, or a magnitude of 10^30 or more (from which the program's
-    float64 arithmetic can overflow to Â±Inf and NaN, which exact arithmetic does not have)?  Such cases are compared by
-    outcome class only. -/
+/-- does some entry of the text carry an Inf/NaN spelling, a magnitude of 10^30 or more (from which the program's
+    float64 arithmetic can overflow to Â±Inf and NaN) or a non-zero magnitude below 10^-30 (from which products can
+    underflow to a signed zero)?  Exact arithmetic has none of these; such cases are compared by outcome class only. -/
 def hasNonFinite (cc : UInt8) (src : Bytes) : Bool :=
   go none (Scanner.scan src none).1
 where
@@ -192,7 +192,10 @@ where
       | .indented k =>
         match cur, k with
         | some _, .entryNonFinite _ => true
-        | some _, .entry _ v => if v.num.natAbs â‰¥ 10 ^ 30 * v.den then true else go cur ls
+        | some _, .entry _ v =>
+          if v.num.natAbs â‰¥ 10 ^ 30 * v.den then true                              -- products may overflow to Â±Inf
+          else if v.num != 0 && v.num.natAbs * 10 ^ 30 < v.den then true           -- products may underflow to Â±0
+          else go cur ls
         | _, _ => go cur ls
 
 inductive FmtArg where
